@@ -1,0 +1,496 @@
+/*
+    Verification hooks - compiled only with `--cfg walleye_verif`.
+
+    Nothing in here changes what the engine computes. The hooks let an external
+    monitor
+      * substitute the clock consulted by the search (per thread, opt-in),
+      * capture protocol lines instead of printing them (per thread or process wide),
+      * record an append-only event log of the search / IO thread hand-off,
+      * stretch pre-emptible points of the two threads with small sleeps (failpoints).
+    With the cfg off this file is not part of the build.
+*/
+#![allow(dead_code)]
+use crate::board::{BoardState, PieceColor, PieceKind, Point, Square, BOARD_END, BOARD_START};
+use crate::draw_table::DrawTable;
+use std::cell::{Cell, RefCell};
+use std::io::Write;
+use std::sync::atomic::{AtomicU64, Ordering};
+use std::sync::Mutex;
+use std::time::{Duration, Instant};
+
+// ---------------------------------------------------------------------------------------------
+// Thread local part: virtual clock + output capture for monitors that call the search directly
+// ---------------------------------------------------------------------------------------------
+
+#[derive(Clone)]
+pub enum Ev {
+    IterStart(u8),
+    // a board handed to the channel, `true` when it is the fallback send made after the deadline
+    Send(Box<BoardState>, bool),
+    // a protocol line that would have been printed
+    Line(String),
+}
+
+#[derive(Clone, Default)]
+pub struct Report {
+    pub queries: u64,             // number of clock queries answered by the virtual clock
+    pub tripped_at: Option<u64>,  // index of the first query that was answered "out of time"
+    pub depth_started: u8,        // highest iteration that was started
+    pub events: Vec<Ev>,
+    pub max_ply: i32,
+    pub nodes: u64,
+    pub null_entry_queries: Vec<u64>, // clock-query index at which each null-move child was entered
+}
+
+struct Tl {
+    armed: bool,
+    expiry: Option<u64>,
+    tripped: bool,
+    depth_limit: u8,
+    rep: Report,
+}
+
+thread_local! {
+    static TL: RefCell<Tl> = RefCell::new(Tl {
+        armed: false,
+        expiry: None,
+        tripped: false,
+        depth_limit: 0,
+        rep: Report::default(),
+    });
+    static THREAD_TAG: Cell<u64> = const { Cell::new(0) };
+    static SEND_SEQ: Cell<u64> = const { Cell::new(0) };
+    static RECV_SEQ: Cell<u64> = const { Cell::new(0) };
+}
+
+/*
+    Arm the virtual clock and the capture buffer of the calling thread.
+    expiry = Some(k): the k-th clock query (0 based) and every later one answer "out of time"
+    depth_limit = d > 0: the clock also expires when iteration d + 1 is about to start
+*/
+pub fn arm(expiry: Option<u64>, depth_limit: u8) {
+    TL.with(|t| {
+        let mut t = t.borrow_mut();
+        t.armed = true;
+        t.expiry = expiry;
+        t.tripped = false;
+        t.depth_limit = depth_limit;
+        t.rep = Report::default();
+    });
+}
+
+pub fn disarm() -> Report {
+    TL.with(|t| {
+        let mut t = t.borrow_mut();
+        t.armed = false;
+        std::mem::take(&mut t.rep)
+    })
+}
+
+// monotone by construction: once it answered true it keeps answering true, like the real clock
+pub fn virtual_out_of_time() -> Option<bool> {
+    TL.with(|t| {
+        let mut t = t.borrow_mut();
+        if !t.armed {
+            return None;
+        }
+        let idx = t.rep.queries;
+        t.rep.queries += 1;
+        if !t.tripped {
+            if let Some(k) = t.expiry {
+                if idx >= k {
+                    t.tripped = true;
+                }
+            }
+        }
+        if t.tripped && t.rep.tripped_at.is_none() {
+            t.rep.tripped_at = Some(idx);
+        }
+        Some(t.tripped)
+    })
+}
+
+pub fn iteration_start(depth: u8) {
+    TL.with(|t| {
+        let mut t = t.borrow_mut();
+        if !t.armed {
+            return;
+        }
+        if t.depth_limit > 0 && depth > t.depth_limit {
+            t.tripped = true;
+        } else {
+            t.rep.depth_started = depth;
+            t.rep.events.push(Ev::IterStart(depth));
+        }
+    });
+}
+
+pub fn note_node(ply: i32, allow_null: bool) {
+    TL.with(|t| {
+        let mut t = t.borrow_mut();
+        if !t.armed {
+            return;
+        }
+        t.rep.nodes += 1;
+        if ply > t.rep.max_ply {
+            t.rep.max_ply = ply;
+        }
+        if !allow_null {
+            let q = t.rep.queries.saturating_sub(1);
+            t.rep.null_entry_queries.push(q);
+        }
+    });
+}
+
+// ---------------------------------------------------------------------------------------------
+// Process wide part: capture, event log, failpoints (hooked binary and two-thread in-process jobs)
+// ---------------------------------------------------------------------------------------------
+
+enum Sink {
+    Unset,
+    Off,
+    File(std::fs::File),
+    Mem(Vec<String>),
+}
+
+struct Global {
+    sink: Sink,
+    capture: Option<Vec<String>>,
+    fp: Option<Vec<(String, u64)>>, // name -> max micro seconds
+    fp_prob: u64,                   // percent
+    rng: u64,
+    epoch: Option<Instant>,
+}
+
+static GLOBAL: Mutex<Global> = Mutex::new(Global {
+    sink: Sink::Unset,
+    capture: None,
+    fp: None,
+    fp_prob: 100,
+    rng: 0x9E3779B97F4A7C15,
+    epoch: None,
+});
+static NEXT_TAG: AtomicU64 = AtomicU64::new(1);
+pub static FAILPOINT_HITS: AtomicU64 = AtomicU64::new(0);
+
+fn lock() -> std::sync::MutexGuard<'static, Global> {
+    match GLOBAL.lock() {
+        Ok(g) => g,
+        Err(p) => p.into_inner(),
+    }
+}
+
+fn thread_tag() -> u64 {
+    THREAD_TAG.with(|c| {
+        if c.get() == 0 {
+            c.set(NEXT_TAG.fetch_add(1, Ordering::Relaxed));
+        }
+        c.get()
+    })
+}
+
+// in-process control -----------------------------------------------------------------------------
+
+pub fn global_capture_start() {
+    lock().capture = Some(Vec::new());
+}
+
+pub fn global_capture_take() -> Vec<String> {
+    lock().capture.take().unwrap_or_default()
+}
+
+pub fn log_to_memory() {
+    lock().sink = Sink::Mem(Vec::new());
+}
+
+pub fn take_memory_log() -> Vec<String> {
+    let mut g = lock();
+    match std::mem::replace(&mut g.sink, Sink::Off) {
+        Sink::Mem(v) => v,
+        _ => Vec::new(),
+    }
+}
+
+/*
+    "name=max_us,name=max_us;seed=N;prob=P"
+*/
+pub fn set_failpoints(cfg: &str) {
+    let mut g = lock();
+    parse_fp(&mut g, cfg);
+}
+
+fn parse_fp(g: &mut Global, cfg: &str) {
+    let mut list = Vec::new();
+    for part in cfg.split(';') {
+        if let Some(seed) = part.strip_prefix("seed=") {
+            g.rng = seed.parse::<u64>().unwrap_or(1).wrapping_mul(0x9E3779B97F4A7C15) | 1;
+        } else if let Some(p) = part.strip_prefix("prob=") {
+            g.fp_prob = p.parse::<u64>().unwrap_or(100);
+        } else {
+            for item in part.split(',') {
+                if let Some((name, us)) = item.split_once('=') {
+                    if let Ok(us) = us.parse::<u64>() {
+                        list.push((name.to_string(), us));
+                    }
+                }
+            }
+        }
+    }
+    g.fp = Some(list);
+}
+
+fn init_from_env(g: &mut Global) {
+    if let Sink::Unset = g.sink {
+        g.sink = match std::env::var("WALLEYE_VERIF_LOG") {
+            Ok(path) => match std::fs::OpenOptions::new()
+                .create(true)
+                .append(true)
+                .open(path)
+            {
+                Ok(f) => Sink::File(f),
+                Err(_) => Sink::Off,
+            },
+            Err(_) => Sink::Off,
+        };
+    }
+    if g.fp.is_none() {
+        match std::env::var("WALLEYE_VERIF_FP") {
+            Ok(cfg) => parse_fp(g, &cfg),
+            Err(_) => g.fp = Some(Vec::new()),
+        }
+    }
+    if g.epoch.is_none() {
+        g.epoch = Some(Instant::now());
+    }
+}
+
+/*
+    Sleep for a seeded random time at a named, pre-emptible point. The lock is released before
+    sleeping so that the two threads never wait for each other because of a failpoint.
+*/
+pub fn failpoint(name: &'static str) {
+    let sleep_us = {
+        let mut g = lock();
+        init_from_env(&mut g);
+        let max_us = match &g.fp {
+            Some(list) => list
+                .iter()
+                .find(|(n, _)| n == name)
+                .map(|(_, us)| *us)
+                .unwrap_or(0),
+            None => 0,
+        };
+        if max_us == 0 {
+            0
+        } else {
+            // xorshift64
+            let mut x = g.rng;
+            x ^= x << 13;
+            x ^= x >> 7;
+            x ^= x << 17;
+            g.rng = x;
+            if (x >> 32) % 100 < g.fp_prob {
+                x % (max_us + 1)
+            } else {
+                0
+            }
+        }
+    };
+    if sleep_us > 0 {
+        FAILPOINT_HITS.fetch_add(1, Ordering::Relaxed);
+        std::thread::sleep(Duration::from_micros(sleep_us));
+    }
+}
+
+fn log_line(kind: &str, detail: &str) {
+    let tag = thread_tag();
+    let mut g = lock();
+    init_from_env(&mut g);
+    let t_ns = g.epoch.map(|e| e.elapsed().as_nanos()).unwrap_or(0);
+    let line = format!("{} {} {} {}", t_ns, tag, kind, detail);
+    match &mut g.sink {
+        Sink::File(f) => {
+            let _ = writeln!(f, "{}", line);
+        }
+        Sink::Mem(v) => v.push(line),
+        _ => {}
+    }
+}
+
+fn piece_char(color: PieceColor, kind: PieceKind) -> char {
+    let c = match kind {
+        PieceKind::Pawn => 'p',
+        PieceKind::Knight => 'n',
+        PieceKind::Bishop => 'b',
+        PieceKind::Rook => 'r',
+        PieceKind::Queen => 'q',
+        PieceKind::King => 'k',
+    };
+    if color == PieceColor::White {
+        c.to_ascii_uppercase()
+    } else {
+        c
+    }
+}
+
+fn point_raw(p: Point) -> String {
+    format!("{}.{}", p.0, p.1)
+}
+
+// raw description of the move a successor board carries: from=<row.col> to=<row.col> promo=<char|->
+pub fn move_raw(b: &BoardState) -> String {
+    let (from, to) = match b.last_move {
+        Some((f, t)) => (point_raw(f), point_raw(t)),
+        None => ("-".to_string(), "-".to_string()),
+    };
+    let promo = match b.pawn_promotion {
+        Some(p) => piece_char(p.color, p.kind),
+        None => '-',
+    };
+    format!("from={} to={} promo={}", from, to, promo)
+}
+
+// raw dump of every field that describes the position (12x12 array included, so that damage to
+// the boundary ring is visible as well)
+pub fn board_raw(b: &BoardState) -> String {
+    let mut cells = String::with_capacity(144);
+    for r in 0..12 {
+        for c in 0..12 {
+            cells.push(match b.board[r][c] {
+                Square::Empty => '.',
+                Square::Boundary => '#',
+                Square::Full(p) => piece_char(p.color, p.kind),
+            });
+        }
+    }
+    let _ = (BOARD_START, BOARD_END);
+    format!(
+        "cells={} stm={} rights={}{}{}{} ep={} wk={} bk={} key={:016x}",
+        cells,
+        if b.to_move == PieceColor::White { 'w' } else { 'b' },
+        if b.white_king_side_castle { 'K' } else { '-' },
+        if b.white_queen_side_castle { 'Q' } else { '-' },
+        if b.black_king_side_castle { 'k' } else { '-' },
+        if b.black_queen_side_castle { 'q' } else { '-' },
+        match b.pawn_double_move {
+            Some(p) => point_raw(p),
+            None => "-".to_string(),
+        },
+        point_raw(b.white_king_location),
+        point_raw(b.black_king_location),
+        b.zobrist_key
+    )
+}
+
+// hook entry points --------------------------------------------------------------------------------
+
+// first line of uci::send_to_gui; true = the line was swallowed by a capture buffer
+pub fn capture(msg: &str) -> bool {
+    let swallowed_tl = TL.with(|t| {
+        let mut t = t.borrow_mut();
+        if t.armed {
+            t.rep.events.push(Ev::Line(msg.to_string()));
+            true
+        } else {
+            false
+        }
+    });
+    if swallowed_tl {
+        return true;
+    }
+    log_line("out", msg);
+    let mut g = lock();
+    if let Some(buf) = &mut g.capture {
+        buf.push(msg.to_string());
+        return true;
+    }
+    false
+}
+
+// before both tx.send in get_best_move
+pub fn on_send(b: &BoardState, fallback: bool) {
+    let armed = TL.with(|t| {
+        let mut t = t.borrow_mut();
+        if t.armed {
+            t.rep.events.push(Ev::Send(Box::new(b.clone()), fallback));
+        }
+        t.armed
+    });
+    if armed {
+        return;
+    }
+    failpoint("search_before_send");
+    let seq = SEND_SEQ.with(|c| {
+        c.set(c.get() + 1);
+        c.get()
+    });
+    log_line(
+        "search_send",
+        &format!("seq={} fb={} {}", seq, fallback as u8, move_raw(b)),
+    );
+}
+
+pub fn go_start(board: &BoardState, slice_ms: u128) {
+    RECV_SEQ.with(|c| c.set(0));
+    log_line(
+        "go_start",
+        &format!("slice_ms={} {}", slice_ms, board_raw(board)),
+    );
+}
+
+pub fn io_recv(b: &BoardState) {
+    let seq = RECV_SEQ.with(|c| {
+        c.set(c.get() + 1);
+        c.get()
+    });
+    log_line("io_recv", &format!("seq={} {}", seq, move_raw(b)));
+    failpoint("io_after_recv");
+}
+
+pub fn io_loop_exit() {
+    log_line("io_loop_exit", "");
+    failpoint("io_before_bestmove");
+}
+
+pub fn position_loaded(board: &BoardState, draw_table: &DrawTable) {
+    let mut entries: Vec<(u64, u8)> = draw_table.table.iter().map(|(k, v)| (*k, *v)).collect();
+    entries.sort_unstable();
+    let table: Vec<String> = entries
+        .iter()
+        .map(|(k, v)| format!("{:016x}:{}", k, v))
+        .collect();
+    log_line(
+        "position_loaded",
+        &format!("{} table={}", board_raw(board), table.join(",")),
+    );
+}
+
+// lives for the duration of get_best_move; records the exit on every path, a panic included
+pub struct SearchScope;
+
+pub fn search_scope() -> SearchScope {
+    let armed = TL.with(|t| t.borrow().armed);
+    if !armed {
+        SEND_SEQ.with(|c| c.set(0));
+        log_line("search_start", "");
+        failpoint("search_thread_start");
+    }
+    SearchScope
+}
+
+impl Drop for SearchScope {
+    fn drop(&mut self) {
+        let armed = TL.with(|t| t.borrow().armed);
+        if !armed {
+            let sent = SEND_SEQ.with(|c| c.get());
+            log_line(
+                "search_exit",
+                &format!(
+                    "sent={} panicking={}",
+                    sent,
+                    std::thread::panicking() as u8
+                ),
+            );
+        }
+    }
+}
